@@ -30,6 +30,7 @@ def run(tier, rep):
         "a non-group declaration takes one named unit, or (csv2 / fixedlength2 / scripted reader) two units of any name (rows = 2) or a "
         "named header through the first footer unit 'Z'; column extraction inside multi-line records is FlatLines / C06",
         "EDI: the top-level declarations repeat while the first of them matches again (intended; repository test 'multiple root level segments, success')",
+        "the target filter is exercised as 'first unit of a leaf target has an odd index' (an xpath on the instance's own column); a filtered-out instance has occurred (counts towards min / max) but is not delivered",
         "max = 0 is outside the property's quantifier and not generated",
     ]
     configs = []
@@ -48,6 +49,8 @@ def run(tier, rep):
                  ("FALSE", "shapes,N<=2,in<=3", dict(NMin=1, NMax=2, MaxIn=3, EmitMod=2, Shapes=shapes))]
     else:
         runs += [("FALSE", "shapes,N<=2,in<=3,1name", dict(NMin=1, NMax=2, MaxIn=3, EmitMod=1, Shapes=shapes, Names='{"A"}'))]
+    # the target filter (FINAL_OUTPUT xpath on the target instance): filtered-out instances still count
+    runs += [(edi, "filter," + nm, dict(c, Filter="TRUE", EmitMod=c["EmitMod"] * 2)) for edi in ("FALSE", "TRUE") for nm, c in configs[:1]]
     for edi, nm, c in runs:
         if True:
             consts = dict(c, Edi=edi, EmitCases="TRUE")
